@@ -29,3 +29,6 @@ Proof. vm_compute; reflexivity. Qed.
 
 Example tie_fetch_order : before "fetchObjects" "saveFetchedRefs" skel_fetch = true.
 Proof. vm_compute; reflexivity. Qed.
+
+Example tie_prune_commit_order : prune_commit_order = "childrenFirst".
+Proof. vm_compute; reflexivity. Qed.
